@@ -175,7 +175,7 @@ Proof.
       specialize (IH true b (set_buf h' [] lv) (sq', snd stamp) r). destruct (flush c t p h' true b _ _ r) as [res e2].
       cbn [snd] in *. rewrite !sh_app, FS, IH. reflexivity.
     + destruct (l_chaser (get_level h' lv) || (h' =? 0)%nat); cbn [snd]; [apply sh_return_errors|].
-      specialize (IH false leader (set_buf h' [] lv) (fst stamp, snd stamp) r). destruct (flush c t p h' false leader _ _ r) as [res e2].
+      match goal with |- context [flush c t p h' false leader (set_buf h' [] lv) ?sx r] => specialize (IH false leader (set_buf h' [] lv) sx r) end. destruct (flush c t p h' false leader _ _ r) as [res e2].
       cbn [snd] in *. rewrite sh_app, sh_return_errors, IH. reflexivity.
 Qed.
 
